@@ -72,12 +72,14 @@ def frac(v):
 
 
 def axes_choices(nd):
+    """None, every single axis in both spellings, and every ordered selection of >= 2 distinct axes with every
+    combination of positive / negative spelling of each entry"""
     out = [None]
     out += list(range(-nd, nd))
     for k in range(2, nd + 1):
-        out += [t for t in itertools.combinations(range(nd), k)]
-    if nd >= 2:
-        out.append((-1, 0))
+        for sel in itertools.permutations(range(nd), k):
+            for signs in itertools.product([0, 1], repeat=k):
+                out.append(tuple(a - nd if s else a for a, s in zip(sel, signs)))
     return out
 
 
